@@ -88,6 +88,10 @@ func profileByName(name string) Profile {
 	case "unstablemix": // C07: three stability levels on several files, COMMITs, metadata operations
 		p.W = map[string]int{"write": 40, "commit": 10, "create": 6, "truncate": 5, "read": 6, "rename": 3, "remove": 3, "mkdir": 2, "getattr": 2, "bigwrite": 1}
 		p.MaxWrite = 12000
+	case "lockorder": // C06: children with smaller and larger numbers than their parents, all multi-lock paths
+		p.W = map[string]int{"create": 12, "mkdir": 12, "symlink": 3, "remove": 10, "rmdir": 8, "rename": 22, "lookup": 14,
+			"readdirplus": 6, "readdir": 2, "restart": 6, "stale": 10, "write": 3, "truncate": 2, "getattr": 2, "badname": 2}
+		p.Steer["dirmove"] = true
 	case "names": // namespace heavy
 		p.W["write"] = 3
 		p.W["read"] = 2
@@ -198,6 +202,7 @@ func main() {
 		os.Exit(2)
 	}
 	cmd := os.Args[1]
+	installHook()
 	if extraCmd(cmd, os.Args[2:]) {
 		return
 	}
